@@ -249,6 +249,8 @@ class SyncWorld:
             def start_response(status, headers, exc_info=None):
                 w.sched.point('start_response')
                 calls.append((status, headers))
+                for cb in getattr(w, 'on_response_start', []):
+                    cb(req, status)
             ret = None
             try:
                 ret = w.app(env, start_response)
